@@ -122,12 +122,13 @@ SCHED_RULE = ("script = sequence of boundary events over N outstanding operation
 
 def plan_C02(tier, seed, q):
     if q:
-        specs = [{"n": 2, "l": 5}, {"n": 3, "l": 4}, {"n": 2, "l": 4, "race": 4}]
-        jobs = sched_jobs("C02", tier, seed, specs, shards=4)
+        specs = [{"n": 2, "l": 6}, {"n": 3, "l": 4}, {"n": 2, "l": 4, "race": 6}, {"n": 1, "l": 6}, {"n": 3, "l": 5, "sample": 4}]
+        jobs = sched_jobs("C02", tier, seed, specs, shards=4) + e2e_jobs("C02", tier, seed, "mix", 200, 3000, shards=8)
     else:
-        specs = [{"n": 2, "l": 6}, {"n": 3, "l": 5}, {"n": 3, "l": 4, "race": 6}, {"n": 1, "l": 6}]
+        specs = [{"n": 2, "l": 7}, {"n": 3, "l": 5}, {"n": 3, "l": 6, "sample": 6}, {"n": 3, "l": 4, "race": 8}, {"n": 1, "l": 7}, {"n": 4, "l": 4, "sample": 3}]
         jobs = sched_jobs("C02", tier, seed, specs, shards=8, timeout=3000)
         jobs += sched_jobs("C02", tier, seed, [{"n": 2, "l": 4, "race": 3}, {"n": 3, "l": 3}], shards=4, kind="vt-race", timeout=3000)
+        jobs += e2e_jobs("C02", tier, seed, "mix", 200, 3000, shards=8, race_t=300)
     return {"level": "fault_enumeration", "exhaustive": True,
             "rule": SCHED_RULE % "" + "; oracle: every operation is signalled exactly once (Done arrivals counted on a channel with room; "
             "blocking forms return once), Error unchanged after the first signal, successful replies == f(args), and fresh pooled "
@@ -227,7 +228,7 @@ POOL_RULE = ("history = (limits, KeepAlive, IdleConnTimeout, 1-3 addresses, 1-32
 
 
 def plan_C13(tier, seed, q):
-    n = 400 if q else 12000
+    n = 3000 if q else 40000
     jobs = pool_jobs("C13", tier, seed, [("limits", n), ("busy", n // 4)], shards=8)
     if not q:
         jobs += pool_jobs("C13", tier, seed + 1, [("limits", 800)], shards=8, kind="vt-race", timeout=3000)
@@ -238,8 +239,8 @@ def plan_C13(tier, seed, q):
 
 
 def plan_C14(tier, seed, q):
-    n = 400 if q else 12000
-    jobs = pool_jobs("C14", tier, seed, [("restart", n), ("limits", n // 2)], shards=8)
+    n = 3000 if q else 40000
+    jobs = pool_jobs("C14", tier, seed, [("restart", n), ("limits", n // 3)], shards=8)
     if not q:
         jobs += pool_jobs("C14", tier, seed + 1, [("restart", 800)], shards=8, kind="vt-race", timeout=3000)
     return {"level": "fault_enumeration", "rule": POOL_RULE + "; class 'restart': one sequential caller with call spacing from {10 ms .. 6 s} around "
@@ -250,8 +251,8 @@ def plan_C14(tier, seed, q):
 
 
 def plan_C15(tier, seed, q):
-    n = 400 if q else 12000
-    jobs = pool_jobs("C15", tier, seed, [("busy", n), ("limits", n // 2)], shards=8)
+    n = 3000 if q else 40000
+    jobs = pool_jobs("C15", tier, seed, [("busy", n), ("limits", n // 3)], shards=8)
     if not q:
         jobs += pool_jobs("C15", tier, seed + 1, [("busy", 800)], shards=8, kind="vt-race", timeout=3000)
     return {"level": "exploration", "rule": POOL_RULE + "; oracles: a call (or stream) to a never-killed server whose request had been written to a "
@@ -270,7 +271,7 @@ POLICY_ASSUME = ["the fake RoundTripper (scripted health and latency per address
 
 
 def plan_C16(tier, seed, q):
-    n = 1500 if q else 40000
+    n = 8000 if q else 120000
     jobs = policy_jobs("C16", tier, seed, "route", n, shards=8)
     if not q:
         jobs += policy_jobs("C16", tier, seed + 1, "route", 3000, shards=8, kind="vt-race", timeout=3000)
@@ -285,7 +286,7 @@ def plan_C16(tier, seed, q):
 
 
 def plan_C17(tier, seed, q):
-    n = 900 if q else 30000
+    n = 6000 if q else 100000
     jobs = policy_jobs("C17", tier, seed, "policy", n, shards=8)
     return {"level": "exploration",
             "rule": "sequence = single caller, 2-8 live targets, policy in {RoundRobin, Random, LeastTime}, Alpha in {0.1,0.5,0.8,0.99}, Tick in {10ms,100ms,1s}, "
@@ -297,7 +298,7 @@ def plan_C17(tier, seed, q):
 
 
 def plan_C18(tier, seed, q):
-    n = 1600 if q else 40000
+    n = 8000 if q else 120000
     jobs = policy_jobs("C18", tier, seed, "failover", n, shards=8)
     if not q:
         jobs += policy_jobs("C18", tier, seed + 1, "failover", 3000, shards=8, kind="vt-race", timeout=3000)
@@ -313,7 +314,7 @@ def plan_C18(tier, seed, q):
 
 
 def plan_C20(tier, seed, q):
-    n = 600 if q else 20000
+    n = 4000 if q else 60000
     jobs = shard("vt", "lifecycle", "C20", tier, seed, n, 8, timeout=1500)
     if not q:
         jobs += shard("vt-race", "lifecycle", "C20", tier, seed + 1, 1500, 8, timeout=3000)
@@ -328,7 +329,7 @@ def plan_C20(tier, seed, q):
 
 
 def plan_C10(tier, seed, q):
-    n = 1600 if q else 40000
+    n = 4000 if q else 80000
     jobs = shard("vt", "sclose", "C10", tier, seed, n, 8, timeout=1500)
     if q:
         jobs += cut_jobs("C10", tier, seed, [], [0, 2, 5], 5, 6)
